@@ -194,6 +194,11 @@ func (e *Exec) runSiteSpecs(s *State, ins ssa.Instruction, specs []*SiteSpec, be
 			e.counters["site:"+ss.Label]++
 		}
 		ord := e.counters["site:"+ss.Label]
+		if e.quiet == 0 && len(ss.Assert) > 0 {
+			// vacuity guard: the site must be reachable under its own assumptions
+			e.obls = append(e.obls, &Obligation{Name: fmt.Sprintf("%s/site:%s#%d/cover", e.funcKey, ss.Label, ord), Kind: "cover", Cover: true, Pos: ins.Pos(),
+				Goal: tTrue, Hyp: hs.pc, Func: e.funcKey, Text: "site reachable", Props: unionProps(orProps(ss.Props, e.props)), Mode: e.mode, exec: e})
+		}
 		for i, a := range ss.Assert {
 			g := e.evalClauseCur(a, hs, e.entry, extra)
 			name := fmt.Sprintf("%s/site:%s#%d/assert#%d", e.funcKey, ss.Label, ord, i+1)
@@ -338,5 +343,32 @@ func (e *Exec) assertValInv(s *State, v Value, t types.Type, ins ssa.Instruction
 		tn := vi.TypeName
 		e.obls = append(e.obls, &Obligation{Name: e.oblName("valinv/" + tn), Kind: "valinv", Pos: ins.Pos(), Goal: g, Hyp: s.pc, Func: e.funcKey,
 			Text: what + ": " + vi.Clause.Text, Props: unionProps(orProps(vi.Props, e.props)), Mode: e.mode, exec: e})
+	}
+}
+
+// initGhostFor: a freshly allocated (zero) object of a type that carries the byte-log ghost fields
+// (bytes.Buffer, bytes.Reader) starts with empty logs.
+func (e *Exec) initGhostFor(s *State, ref *Node, ptrT types.Type) {
+	pt, ok := ptrT.Underlying().(*types.Pointer)
+	if !ok {
+		return
+	}
+	n, ok := pt.Elem().(*types.Named)
+	if !ok {
+		return
+	}
+	owner, ok := e.v.db.GhostAlias[n.Obj().Name()]
+	if !ok {
+		return
+	}
+	key := e.box(s, ref, ptrT)
+	for _, gf := range e.v.db.Ghost {
+		if gf.Owner != owner || (gf.Type != "int" && gf.Type != "Z") {
+			continue
+		}
+		name := ghostHeapName(gf)
+		sortS := e.ghostHeapSort(gf, "Iface")
+		h := e.heap(s, name, sortS)
+		e.setHeap(s, name, Store(h, key, zeroOfSort(arrayValSort(sortS))), key)
 	}
 }
